@@ -864,8 +864,9 @@ impl<A: Zeroize + NewBytes + ResizableBytes + Lockable<A>> NewLockedFromSlice<A>
     fn from_slice_into_locked(
         src: &[u8],
     ) -> Result<Protected<Self, traits::ReadWrite, traits::Locked>, crate::error::Error> {
-        let mut res = Self::new_bytes().mlock()?;
-        res.resize(src.len(), 0);
+        let mut sized = Self::new_bytes();
+        sized.resize(src.len(), 0);
+        let mut res = sized.mlock()?;
         res.as_mut_slice().copy_from_slice(src);
         Ok(res)
     }
